@@ -14,7 +14,7 @@ namespace Sessions
 inductive PendKind where
   | slow (sid : Option Nat) (slot : Nat)
   | run (sid : Nat) (slot : Nat)   -- handler still running after its POST was abandoned by the client
-  | del (sid : Nat)
+  | del (sid : Nat) (fresh : Bool)   -- `fresh` (ghost): the session was not yet closing when the DELETE was accepted
   | cls (sid : Nat)
 deriving DecidableEq, Repr
 
@@ -56,7 +56,7 @@ def completions (s : State) (pend : List Pend) : List (Tag × Nat) × List Pend 
   pend.foldl (fun (acc : List (Tag × Nat) × List Pend) p =>
     let (done, keep) := acc
     match p.kind with
-    | .del i => if isLive s i then (done, keep ++ [p]) else (done ++ [(p.tag, stDeleted)], keep)
+    | .del i _ => if isLive s i then (done, keep ++ [p]) else (done ++ [(p.tag, stDeleted)], keep)
     | .cls i => if isLive s i then (done, keep ++ [p])
                 else (done ++ [(p.tag, if closeErrOf s i then 2 else 1)], keep)
     | .slow _ _ => (done, keep ++ [p])
@@ -223,7 +223,8 @@ def modelOp (d : RState) (op : Op) : Option ROut :=
     | some (st1, .closeAccepted) =>
       let i := sid.getD 0
       let st2 := settle st1
-      if isLive st2 i then some { base with st := st2, status := .pending, pend := d.pend ++ [⟨.d (d.nasync + 1), .del i⟩] }
+      let fresh := match findSess i st.tbl with | some e => !e.closing | none => false
+      if isLive st2 i then some { base with st := st2, status := .pending, pend := d.pend ++ [⟨.d (d.nasync + 1), .del i fresh⟩] }
       else some { base with st := st2, status := .code stDeleted }
     | _ => none
   | .other ref user =>
